@@ -76,6 +76,15 @@ def tree_invocation(ctx, depth, fanout, reject_prob=0.3, conv=False, simple_hook
         argv, muts = gen.gen_argv(rng, spec_ast, decls, (), mutate_prob=reject_prob)
         argv = [t for t in argv if t not in aliases and t not in ("-h", "--help")]
         per_level.append(argv)
+    # a token of a level may spell a sub-command name of ANOTHER level (e.g. a sibling of the command
+    # it belongs to): only the names of its own level's sub-commands split its arguments
+    for k in range(1, len(cmds)):
+        if rng.random() < 0.3:
+            own = set(a for s in cmds[k]["subs"] for a in s["name"].split())
+            sib = [a for s in cmds[k - 1]["subs"] if s is not cmds[k] for a in s["name"].split() if a not in own]
+            pos = [i for i, t in enumerate(per_level[k]) if not t.startswith("-") and "=" not in t]
+            if sib and pos:
+                per_level[k][rng.choice(pos)] = rng.choice(sib)
     # the addressed command runs something
     if cmds[-1]["action"] is None:
         cmds[-1]["action"] = {"k": "ret"}
@@ -481,6 +490,28 @@ def check_C06(ctx, prop="C06"):
                     continue
             ctx.violation("precedence", "%s %s default %r env %r argv %r: value %r, expected %r"
                           % (c["_kind"], "option" if c["_isopt"] else "argument", c["_default"], c["env"], c["argv"], got, exp), case=c)
+    # two []string parameters declared with the very same default slice: giving one a value must not touch the other
+    if prop == "C06":
+        shared = []
+        for how in ("cli", "env"):
+            for second_is_arg in (False, True):
+                for dflt in (["a", "b"], ["a", "b", "c"]):
+                    for vals in (["x"], ["x", "y"], ["x", "y", "z", "w"]):
+                        d1 = gen.mkopt("strings", "i inc", env="VE_I" if how == "env" else "", defshare="k", sbu=True, **{"def": list(dflt)})
+                        d2 = (gen.mkarg if second_is_arg else gen.mkopt)("strings", "ARG" if second_is_arg else "o out", defshare="k", sbu=True, **{"def": list(dflt)})
+                        spec = "[-i...] " + ("[ARG...]" if second_is_arg else "[-o...]")
+                        argv = [] if how == "env" else [t for v in vals for t in ("-i", v)]
+                        env = {"VE_I": ", ".join(vals)} if how == "env" else {}
+                        for order in ((d1, d2), (d2, d1)):
+                            root = gen.mkcmd("app", decls=[copy.deepcopy(order[0]), copy.deepcopy(order[1])], spec=spec, policy=0)
+                            shared.append({"op": "run", "env": env, "version": None, "root": root, "argv": argv, "_dflt": dflt, "_vals": vals,
+                                           "_other": "app|" + d2["name"]})
+        sres = correspond(ctx, shared, ["outcome", "trace", "values"], "two parameters sharing one default slice")
+        for c in shared:
+            a, _ = sres[c["id"]]
+            if not accepted(a) or a["values"].get(c["_other"]) != c["_dflt"] or a["values"].get("app|i inc") != c["_vals"]:
+                ctx.violation("precedence", "two []string parameters with the same default %r, one given %r: values %r"
+                              % (c["_dflt"], c["_vals"], a["values"]), case=c)
     ctx.stream("kinds x opt/arg x defaults x env lists x cli counts", 0, k1_shape=k1)
     ctx.sample({"kind": "ints", "default": ["4", "5"], "env": {"VE0": "", "VE1": "7, 8"}, "argv": [], "expected": ["7", "8"]})
     return ("7 built-in kinds x option/argument x 2 defaults x environment lists of length 0-3 over {unset, empty, valid, "
@@ -535,7 +566,7 @@ def check_C13(ctx):
                               "_kind": kind, "_tok": t, "_route": "env", "_isopt": isopt})
     # several command-line tokens for one multi-valued variable: every one of them must convert
     seqs = []
-    for kind in ("ints", "floats", "strings"):
+    for kind in ("ints", "floats", "strings", "int", "float", "bool", "string"):
         elem = ELEM[kind]
         good = VALID[elem]
         bad = INVALID[elem] or ["x"]
@@ -543,7 +574,8 @@ def check_C13(ctx):
             for n in (2, 3, 4):
                 for mask in itertools.product([True, False], repeat=n):
                     ts = [rng.choice(good) if g else rng.choice([b for b in bad if b] or ["x"]) for g in mask]
-                    d = (gen.mkopt if isopt else gen.mkarg)(kind, "x val" if isopt else "ARG", sbu=True, **{"def": []})
+                    d = (gen.mkopt if isopt else gen.mkarg)(kind, "x val" if isopt else "ARG", sbu=True,
+                                                             **{"def": list(DEFAULTS[kind][0])})
                     argv = [("-x=" + t) for t in ts] if isopt else ["--"] + ts
                     root = gen.mkcmd("app", decls=[d], spec="-x..." if isopt else "ARG...", policy=0)
                     seqs.append({"op": "run", "env": {}, "version": None, "root": root, "argv": argv,
@@ -587,7 +619,8 @@ def check_C13(ctx):
         ps = [parse_elem(tbl2, ELEM[c["_kind"]], t) for t in c["_toks"]]
         key = "app|" + c["root"]["decls"][0]["name"]
         if all(ok for ok, _ in ps):
-            if not accepted(a) or a["values"].get(key) != [v for _, v in ps]:
+            want = [v for _, v in ps] if c["_kind"] in MULTI else [ps[-1][1]]
+            if not accepted(a) or a["values"].get(key) != want:
                 ctx.violation("strconv", "%s with tokens %r: got %r / %r" % (c["_kind"], c["_toks"], a["outcome"], a["values"].get(key)), case=c)
         elif a["outcome"] != ("ret", "conv") or a["trace"]:
             ctx.violation("strconv", "%s with tokens %r (one does not convert): the invocation ended %r with trace %r"
